@@ -10,10 +10,12 @@ Open Scope Z_scope.
     observed Encrypt, observed DecryptFromBuffer of that output on the other side)
    mode 0: EncryptedMessageData{Message: payload} (mlen ignored); mode 1: explicit MessageDataLen = mlen,
    MessageDataWithPadding = payload. *)
-Definition case := (Z * Z * list Z * list Z * (Z * Z * Z * Z) * Z * list Z * list Z * (Z * list Z) * obs_dec_t)%type.
+Definition case := (Z * Z * packed * packed * (Z * Z * Z * Z) * Z * packed * packed * (Z * packed) * obs_dec_p)%type.
 
 Definition ok (c : case) : bool :=
   let '(mode, sd, kv, kid, (salt, sess, mid, seq), mlen, payload, rnd, oenc, odec) := c in
+  let kv := unpack kv in let kid := unpack kid in let payload := unpack payload in let rnd := unpack rnd in
+  let oenc := (fst oenc, unpack (snd oenc)) in let odec := unpack_obs_dec odec in
   let s := side_of sd in
   let k := {| ak_value := kv; ak_id := kid |} in
   let h := {| h_salt := salt; h_session := sess; h_msg_id := mid; h_seq_no := seq |} in
